@@ -168,7 +168,7 @@ func runC12(c *Ctx) {
 		same := f.EdgesWhere(func(cond ast.Expr) (bool, bool) {
 			cm, ok := asCmp(cond, true)
 			if ok && cm.Op == token.NEQ {
-				if o := objOf(info, cm.R); o != nil && o.Name() == "expected" {
+				if ps := tr.Obj.Type().(*types.Signature).Params(); ps.Len() == 1 && objOf(info, cm.R) == types.Object(ps.At(0)) {
 					return true, false
 				}
 			}
@@ -250,6 +250,17 @@ func runC12(c *Ctx) {
 		rd := c.Func("actor", "passivationEntry.refreshDeadline")
 		info := rd.Info()
 		ok := false
+		var lastObj types.Object // the local initialised from the participant's latest activity
+		ast.Inspect(rd.Decl.Body, func(n ast.Node) bool {
+			if as, isAs := n.(*ast.AssignStmt); isAs && as.Tok == token.DEFINE && len(as.Lhs) == 1 && len(as.Rhs) == 1 {
+				if call, isCall := as.Rhs[0].(*ast.CallExpr); isCall {
+					if cal := callee(info, call); cal != nil && cal.Name() == "passivationLatestActivity" {
+						lastObj = info.ObjectOf(as.Lhs[0].(*ast.Ident))
+					}
+				}
+			}
+			return true
+		})
 		ast.Inspect(rd.Decl.Body, func(n ast.Node) bool {
 			as, isAs := n.(*ast.AssignStmt)
 			if !isAs || len(as.Lhs) != 1 {
@@ -264,7 +275,7 @@ func runC12(c *Ctx) {
 			}
 			if cal := callee(info, call); cal != nil && cal.Name() == "Add" && len(call.Args) == 1 {
 				if f := selField(info, call.Args[0]); f != nil && f.Name() == "timeout" {
-					if o := objOf(info, recvExpr(call)); o != nil && o.Name() == "last" {
+					if o := objOf(info, recvExpr(call)); o != nil && o == lastObj {
 						ok = true
 					}
 				}
